@@ -228,6 +228,36 @@ def r4(ctx, R):
             cs = [c for c in calls_in(lp) if ed.qual in ctx.r.resolve_call(g, c)[1]]
             if cs:
                 loops.append((lp, cs))
+        # every notification reaches the edit routine, or the failure is reported: no path from
+        # entry to a normal exit avoids both (a silently dropped change leaves the mirror stale)
+        cfg = ctx.cfg(g)
+        blocked = set()
+        for n in cfg.nodes:
+            a = n.ast
+            if a is None:
+                continue
+            if n.kind in ("for", "loophead") and isinstance(a, ast.For):
+                if any(ed.qual in ctx.r.resolve_call(g, c)[1] for c in calls_in(a)):
+                    blocked.add(n.id)
+                continue
+            if n.kind not in ("stmt", "test"):
+                continue
+            roots = [a] if not isinstance(a, (ast.With,)) else [i.context_expr for i in a.items]
+            for r_ in roots:
+                if isinstance(r_, (ast.For, ast.While, ast.If, ast.Try, ast.FunctionDef)):
+                    continue
+                for c in [x for x in ast.walk(r_) if isinstance(x, ast.Call)]:
+                    if ed.qual in ctx.r.resolve_call(g, c)[1] or (isinstance(c.func, ast.Attribute) and c.func.attr == "post_message"):
+                        blocked.add(n.id)
+                if isinstance(r_, ast.Raise):
+                    blocked.add(n.id)
+        reach = cfg.reachable_without([cfg.entry.id], blocked, follow_exc=False)
+        if cfg.exit.id in reach:
+            last = max((cfg.nodes[i] for i in reach if cfg.nodes[i].ast is not None and any(t == cfg.exit.id for t, _ in cfg.nodes[i].succs)), key=lambda n: getattr(n.ast, "lineno", 0), default=None)
+            at = last.ast if last is not None else g.node
+            R.violation("C02.R4", g.short, "every change notification is applied or reported", loc(g, at), f"a path leaves the handler (via `{unparse(at)[:60]}`) without applying the content changes and without a message: the server's copy of the document silently stays behind the client's")
+        else:
+            R.ok("C02.R4", g.short, "every change notification is applied or reported", loc(g, g.node), f"{len(blocked)} applying/reporting nodes cut every entry-exit path")
         if not loops:
             R.undecided("C02.R4", g.short, "change loop", loc(g, g.node), "no loop applying the edit routine")
             continue
